@@ -1,4 +1,4 @@
-"""C19 (VectorT algebra), tier U: every operation of VectorT<int,2/3/4>, VectorT<double,2/3/4>, VectorT<float,3>
+"""C19 (VectorT algebra), tier U: every operation of VectorT<int,2/3/4>, VectorT<double,2/3/4>, VectorT<float,2/3/4>
 and the narrow-scalar VectorT<signed char,3>, VectorT<short,3> that the property names,
 against its component-wise definition, for ALL component values (integers: within a range that excludes signed
 overflow, which is undefined behaviour of the real code as well; doubles: every bit pattern, NaN compared as NaN).
@@ -131,7 +131,7 @@ def obligations():
     GROUP_FUNCS = {'addsub': ['add', 'sub', 'iadd', 'isub', 'neg'], 'muldiv': ['mul', 'imul', 'smul', 'smul_left', 'ismul', 'div', 'idiv', 'sdiv', 'isdiv'], 'compare': ['eq', 'ne', 'lt'],
                    'products': ['dot', 'dot_free', 'dot_member', 'sqrnorm'], 'minmax': ['max', 'min', 'max_abs', 'min_abs', 'l8_norm'], 'norms': ['l1_norm', 'mean', 'mean_abs'],
                    'minimize': ['minimize', 'maximize', 'vmin', 'vmax', 'minimized', 'maximized'], 'construct': ['vectorized', 'from_scalar', 'at', 'swap']}
-    for pfx, N, sc in (('i3', 3, 'int'), ('i2', 2, 'int'), ('i4', 4, 'int'), ('d3', 3, 'double'), ('c3', 3, 'signed char'), ('s3', 3, 'short'), ('d2', 2, 'double'), ('d4', 4, 'double'), ('f3', 3, 'float')):
+    for pfx, N, sc in (('i3', 3, 'int'), ('i2', 2, 'int'), ('i4', 4, 'int'), ('d3', 3, 'double'), ('c3', 3, 'signed char'), ('s3', 3, 'short'), ('d2', 2, 'double'), ('d4', 4, 'double'), ('f3', 3, 'float'), ('f2', 2, 'float'), ('f4', 4, 'float')):
         pre, H = vec_harness(pfx, N, sc)
         for g, body in H.items():
             if sc in ('signed char', 'short') and g in ('muldiv',): continue      # narrow scalars: the groups whose result type is promoted (products, norms) and the order-based ones
